@@ -1,22 +1,23 @@
+"""Manifest metadata that is not per-check configuration: hook commits in /repo and reasons for unclaimed properties.
+Per-check texts (level text / note / design_ref) live next to the check configuration in checkcfg.py."""
 HOOK_COMMITS = []
 
 _ALL = ["C%02d" % i for i in range(1, 21)]
 
-META = {
-    "C12": dict(
-        text="Exploration by generated search: rule lists as YAML delivers them (every key/value type, random key case, literal, "
-             "regex-grammar and malformed patterns) and packets over a colliding name alphabet are judged by an independent "
-             "first-match reference interpreter; refusal of uninterpretable rule sets is checked in both directions. Finds "
-             "counterexamples, proves nothing.",
-        design_ref="DESIGN.md §6 C12",
-        note="Trusted: Go's regexp for the meaning of a single pattern; the harness' reference interpreter. Placement (origin/transit/"
-             "destination) is covered by the mesh part when present.",
-    ),
-}
+# property -> reason, for properties that are deliberately not claimed (kept current by hand)
+NA_REASONS = {}
+
+
+def _meta():
+    from checkcfg import PROPS
+    return {p: dict(text=c["text"], design_ref=c.get("design_ref", "DESIGN.md §6 " + p), note=c["note"]) for p, c in PROPS.items()}
+
 
 def _na():
     from checkcfg import PROPS
-    return [dict(property_id=p, reason="check not built yet in this session (work in progress); no claim is made")
+    return [dict(property_id=p, reason=NA_REASONS.get(p, "check not built yet in this session (work in progress); no claim is made"))
             for p in _ALL if p not in PROPS]
 
+
+META = _meta()
 NOT_APPLICABLE = _na()
